@@ -573,10 +573,23 @@ fn fam_indirect(rng: &mut Rng) -> Cfg {
     // uses of cycle members from outside the cycle: at the end of a rule, or followed by a
     // terminal — a fresh one, or one of the cycle's own suffix terminals (the same follower
     // inside and outside the cycle)
-    let uses = rng.range(1, 3);
+    let uses = 1 + rng.weighted(&[1, 3, 2]);
+    let first_member = rng.below(k);
     for u in 0..uses {
-        let which = cyc[rng.below(k)];
-        let mut rhs = if rng.chance(1, 2) { vec![N(lead), N(which)] } else { vec![T(lt), N(which)] };
+        // the cycle is usually entered from outside through two *different* members, one of them
+        // possibly at the very start of a rule of the start symbol
+        let which = if u == 0 {
+            cyc[first_member]
+        } else if rng.chance(2, 3) {
+            cyc[(first_member + 1 + rng.below(k - 1)) % k]
+        } else {
+            cyc[rng.below(k)]
+        };
+        let mut rhs = match rng.below(5) {
+            0 | 1 => vec![N(lead), N(which)],
+            2 | 3 => vec![T(lt), N(which)],
+            _ => vec![N(which)],
+        };
         match rng.below(4) {
             0 => {}
             1 | 2 => rhs.push(T(suffixes[rng.below(k)])),
@@ -1611,6 +1624,112 @@ pub fn add_unproductive(c: &mut Cfg, rng: &mut Rng) {
     }
 }
 
+/// An independent random stream for passes added after the first sweeps: it is seeded from a
+/// *clone* of the main stream, which therefore does not advance — every grammar, text and script
+/// that the new pass leaves alone stays exactly what it was before the pass existed.
+pub fn side_stream(rng: &Rng, tag: u64) -> Rng {
+    let mut c = rng.clone();
+    Rng::from_u64(c.next_u64() ^ tag)
+}
+
+/// Many symbols: 50-110 terminals that no rule uses, declared in front of, behind or around the
+/// used ones (so that the used ones get column numbers beyond 64), and/or 60-90 unreachable
+/// nonterminals likewise (word-size and index-width boundaries in sets and tables).
+pub fn pad_symbols(c: &mut Cfg, rng: &mut Rng) {
+    let mode = rng.weighted(&[3, 1, 1]);
+    if mode != 1 {
+        let n = rng.range(50, 110);
+        let front = match rng.below(3) {
+            0 => n,
+            1 => 0,
+            _ => rng.below(n + 1),
+        };
+        let old = std::mem::take(&mut c.terms);
+        let mut terms: Vec<String> = (0..front).map(|i| format!("Pad{}", i)).collect();
+        terms.extend(old);
+        terms.extend((front..n).map(|i| format!("Pad{}", i)));
+        c.terms = terms;
+        for r in c.rules.iter_mut() {
+            for s in r.1.iter_mut() {
+                if let T(i) = s {
+                    *i += front;
+                }
+            }
+        }
+    }
+    if mode != 0 {
+        let n = rng.range(60, 90);
+        let front = if rng.chance(1, 2) { n } else { rng.below(n + 1) };
+        let old = std::mem::take(&mut c.nts);
+        let mut nts: Vec<String> = (0..front).map(|i| format!("PadNt{}", i)).collect();
+        nts.extend(old);
+        nts.extend((front..n).map(|i| format!("PadNt{}", i)));
+        let total = nts.len();
+        c.nts = nts;
+        c.start += front;
+        for r in c.rules.iter_mut() {
+            r.0 += front;
+            for s in r.1.iter_mut() {
+                if let N(i) = s {
+                    *i += front;
+                }
+            }
+        }
+        let pt = if c.terms.is_empty() { c.term("PadTok") } else { rng.below(c.terms.len()) };
+        let pad_ix: Vec<usize> = (0..front).chain(total - (n - front)..total).collect();
+        for (k, i) in pad_ix.iter().enumerate() {
+            if k % 7 == 3 {
+                c.rules.push((*i, vec![]));
+            } else {
+                c.rules.push((*i, vec![T(pt)]));
+            }
+        }
+    }
+    c.family = format!("{}+pad", c.family);
+}
+
+/// Names that are easy to confuse: digit runs that differ only in leading zeros (`Reg1`,
+/// `Reg01`, `Reg001`), the same letters in different case, names that are prefixes of one
+/// another. Anything that orders, hashes or abbreviates names must still tell them apart.
+pub fn confusable_names(g: &mut Grammar, rng: &mut Rng) {
+    let mode = rng.weighted(&[2, 1, 1]);
+    let base = *rng.pick(&["Reg", "T", "Tok", "Kw", "X"]);
+    let on_nts = rng.chance(1, 4);
+    let n = if on_nts { g.nts.len() } else { g.terms.len() };
+    if n < 2 {
+        return;
+    }
+    let mut idx: Vec<usize> = (0..n).collect();
+    rng.shuffle(&mut idx);
+    let k = if rng.chance(1, 2) { n } else { rng.range(2, 5).min(n) };
+    let mut taken: Vec<String> = g.nts.iter().map(|x| x.name.clone()).chain(g.terms.iter().map(|x| x.name.clone())).collect();
+    taken.push(g.token_enum.clone());
+    for (j, i) in idx[..k].iter().enumerate() {
+        let name = match mode {
+            0 => format!("{}{}{}", base, "0".repeat(j % 3), j / 3 + 1),
+            1 => {
+                let w = ["Tok", "TOk", "ToK", "TOK"][j % 4];
+                if j < 4 {
+                    w.to_string()
+                } else {
+                    format!("{}{}", w, j / 4)
+                }
+            }
+            _ => format!("{}{}", base, "a".repeat(j)),
+        };
+        if taken.contains(&name) || name == "S" || name == "Eof" {
+            continue;
+        }
+        taken.push(name.clone());
+        if on_nts {
+            g.nts[*i].name = name;
+        } else {
+            g.terms[*i].name = name;
+        }
+    }
+    g.family = format!("{}+names", g.family);
+}
+
 pub fn workload_grammar(rng: &mut Rng) -> Grammar {
     workload_grammar_mix(rng, 0)
 }
@@ -1619,6 +1738,7 @@ pub fn workload_grammar(rng: &mut Rng) -> Grammar {
 /// family mix gives them anyway): the tables-only extension uses a third, because the family mix
 /// and the uniform draw find different seeded defects (DESIGN section 11).
 pub fn workload_grammar_mix(rng: &mut Rng, random_pct: usize) -> Grammar {
+    let mut side = side_stream(rng, 0xb16_5e75);
     let mut cfg = if rng.chance(random_pct, 100) {
         let mut c = fam_random(rng);
         dedup_rules(&mut c);
@@ -1629,7 +1749,13 @@ pub fn workload_grammar_mix(rng: &mut Rng, random_pct: usize) -> Grammar {
     if rng.chance(1, 6) {
         add_unproductive(&mut cfg, rng);
     }
+    if side.chance(1, 14) && cfg.rules.len() <= 40 {
+        pad_symbols(&mut cfg, &mut side);
+    }
     let mut g = decorate(&cfg, rng, DecoOpts::default());
+    if side.chance(1, 6) {
+        confusable_names(&mut g, &mut side);
+    }
     // A user identifier `Eof` makes the emitted module fail to compile on the pinned tree
     // (the template hard-codes `::Eof` in one place; that is C05's subject, see DESIGN section 9),
     // so Engine B does not spend workload on it. Engine A keeps such names.
